@@ -161,6 +161,8 @@ func c05(c *Ctx) (*report.Result, error) {
 	if g := resolve(c, res, "O5.4", anchor{"proxy", "*proxyIDRingBuffer", "AggregateUpTo"}); g != nil {
 		checkAggregateMax(c, res, g, "O5.4")
 	}
+	res.RuleDoc["O5.12"] = "an acknowledgement that covers nothing translates to nothing: every return of AggregateUpTo hands back a map made in that very call - a result map kept in the buffer between calls comes back from the early exits with the previous acknowledgement's levels still in it"
+	checkAggregateReturnsFreshMap(c, res, "O5.12")
 	res.RuleDoc["O5.11"] = "what AggregateUpTo computed is what is acknowledged: the per-source map it returns is only read by its caller (no update, delete or clear before the levels are forwarded) - a level raised to 'what was forwarded earlier' is the id of an entry that is no longer outstanding, and the discard count still belongs to the levels the table computed"
 	checkTranslationNotEdited(c, res, "O5.11")
 	res.RuleDoc["O5.10"] = "every mapping handed to Append becomes a live entry: no return of Append is reachable without the store of the caller's (sourceShard, sourceTask) into a ring slot followed by size++ - the sender allocates one proxy id per Append, so an Append that stores nothing leaves that id without an entry and shifts every later one"
